@@ -3,7 +3,7 @@ from typing import Dict
 
 from pydbml.classes import Project
 from pydbml.renderer.dbml.default.renderer import DefaultDBMLRenderer
-from pydbml.renderer.dbml.default.utils import comment_to_dbml, quote_name_if_needed, prepare_text_for_dbml
+from pydbml.renderer.dbml.default.utils import comment_to_dbml, quote_property_key, prepare_text_for_dbml
 from pydbml.tools import doublequote_string
 
 
@@ -11,9 +11,9 @@ def render_items(items: Dict[str, str]) -> str:
     items_str = ''
     for k, v in items.items():
         if '\n' in v:
-            items_str += f"{quote_name_if_needed(k)}: '''{prepare_text_for_dbml(v)}'''\n"
+            items_str += f"{quote_property_key(k)}: '''{prepare_text_for_dbml(v)}'''\n"
         else:
-            items_str += f"{quote_name_if_needed(k)}: '{prepare_text_for_dbml(v)}'\n"
+            items_str += f"{quote_property_key(k)}: '{prepare_text_for_dbml(v)}'\n"
     return indent(items_str.rstrip('\n'), '    ') + '\n'
 
 
